@@ -44,7 +44,7 @@ REQUIRED_THEOREMS = [
     # Props/C08b.lean (theorem-gap round)
     "frame_count_floor_iff", "scheduled_time_at_t_end_served_iff", "scheduled_times_up_to_t_end_served_whole_range",
     "adaptiveStepper_lands", "adaptive_served_exactly_up_to_dtmin", "adaptive_served_exactly_run",
-    "adaptive_overshoot_by_dtmin",
+    "adaptive_overshoot_by_dtmin", "adaptive_never_late_among_trackers", "adaptive_never_late_run",
 ]
 EXTRA_PROP_FILES = ["C08b"]  # frame count iff, scheduled time at t_end, adaptive steppers (Model/Adaptive.lean)
 MIN_LEGS = {"adaptive-model": 30}
